@@ -80,6 +80,9 @@ def cases_for(tier, rng):
             extra.append(dict(c, history="abandon"))
         if k % (97 if tier == "quick" else 41) == 1 and len(c["mib"]) >= 2:
             extra.append(dict(c, history="retry"))
+        if k % 11 == 2 and len(c["mib"]) >= 3:
+            # one walk object consumed in several loops (next() to peek, for ... break, for again)
+            extra.append(dict(c, history="parts", parts=[rng.choice([1, 2, 3]), rng.choice([0, 1, 2, 4, 7])]))
     return out + extra
 
 
@@ -142,6 +145,9 @@ def worker(job):
         if hist == "retry":
             st["drop_at"] = rng.choice([1, 2, 2, 3])
             call_op = op + "_retry"
+        if hist == "parts":
+            drv.part_sizes = c["parts"]
+            call_op = op + "_parts"
         out = drv.call(call_op, *args, limit=400)
         res["walks"] += 1
         res["requests"] += st["n"]
